@@ -26,3 +26,55 @@ package types
 
 //@ contract CommitAcknowledgement
 //@   ensures result == sha256(data)
+
+// ---- ghost vocabulary for the keepers this module depends on (interfaces in expected_keepers.go).
+// The Proven* predicates are uninterpreted: only the interface contracts below establish them, so a caller can
+// prove "success ==> Proven...(exactly these arguments)" only by making that call with those arguments.
+
+//@ spec func connOf(w World, id string) connectiontypes.ConnectionEnd
+//@ spec func hasConn(w World, id string) bool
+//@ spec func ProvenCommitment(c connectiontypes.ConnectionEnd, h exported.Height, port string, channel string, seq int, commitment string) bool
+//@ spec func ProvenAck(c connectiontypes.ConnectionEnd, h exported.Height, port string, channel string, seq int, ack string) bool
+//@ spec func ProvenReceiptAbsence(c connectiontypes.ConnectionEnd, h exported.Height, port string, channel string, seq int) bool
+//@ spec func ProvenNextSeqRecv(c connectiontypes.ConnectionEnd, h exported.Height, port string, channel string, nsr int) bool
+//@ spec func ProvenChannelState(c connectiontypes.ConnectionEnd, h exported.Height, port string, channel string, ch Channel) bool
+//@ spec func clientStatus(w World, id string) string
+//@ spec func clientLatestHeight(w World, id string) clienttypes.Height
+//@ spec func clientTimestampAt(w World, id string, h exported.Height) int
+//@ spec func clientTimestampErr(w World, id string, h exported.Height) error
+
+//@ contract interface ConnectionKeeper.GetConnection
+//@   ensures result0 == connOf(world(ctx), connectionID) && result1 == hasConn(world(ctx), connectionID)
+
+//@ contract interface ConnectionKeeper.VerifyPacketCommitment
+//@   ensures !errIs(err, ErrNoOpMsg)
+//@   ensures err == nil ==> ProvenCommitment(connection, height, portID, channelID, sequence, commitmentBytes)
+
+//@ contract interface ConnectionKeeper.VerifyPacketAcknowledgement
+//@   ensures !errIs(err, ErrNoOpMsg)
+//@   ensures err == nil ==> ProvenAck(connection, height, portID, channelID, sequence, acknowledgement)
+
+//@ contract interface ConnectionKeeper.VerifyPacketReceiptAbsence
+//@   ensures !errIs(err, ErrNoOpMsg)
+//@   ensures err == nil ==> ProvenReceiptAbsence(connection, height, portID, channelID, sequence)
+
+//@ contract interface ConnectionKeeper.VerifyNextSequenceRecv
+//@   ensures !errIs(err, ErrNoOpMsg)
+//@   ensures err == nil ==> ProvenNextSeqRecv(connection, height, portID, channelID, nextSequenceRecv)
+
+//@ contract interface ConnectionKeeper.VerifyChannelState
+//@   ensures !errIs(err, ErrNoOpMsg)
+//@   ensures err == nil ==> ProvenChannelState(connection, height, portID, channelID, channel)
+
+//@ contract interface ClientKeeper.GetClientStatus
+//@   ensures result == clientStatus(world(ctx), clientID)
+
+//@ contract interface ClientKeeper.GetClientLatestHeight
+//@   ensures result == clientLatestHeight(world(ctx), clientID)
+
+//@ contract interface ClientKeeper.GetClientTimestampAtHeight
+//@   ensures !errIs(err, ErrNoOpMsg)
+//@   ensures result0 == clientTimestampAt(world(ctx), clientID, height) && err == clientTimestampErr(world(ctx), clientID, height)
+//@   ensures 0 <= result0 && result0 < 18446744073709551616
+
+//@ impl modules/core/exported.PacketI = modules/core/04-channel/types.Packet
